@@ -259,3 +259,101 @@ _targets_without_get = targets
 
 def targets():      # noqa: F811
     return _targets_without_get() + [target_get_elements()]
+
+
+def target_set_default_values():
+    """Element.set_default_values (what reset() and reset_default_parameter_values() undo): it rebinds the default VALUE of the
+    named parameters and nothing else -- the default limits, fixed flags and every other class-level table stay exactly as they
+    were, whether the new value lies inside the default limits, below them or above them.  (The registry snapshots and restores
+    values only, so anything else this method changed would survive a reset.)"""
+    import copy
+    import itertools
+    from pyvc import overload as O
+
+    def run(sess: Session):
+        ns = {"float": float, "list": list, "len": len}
+        O.load("circuit/base", ["Element.set_default_values"], ns)
+        fn = ns["set_default_values"]
+        for where, form in itertools.product(("inside", "below the lower limit", "above the upper limit", "on the lower limit", "on the upper limit"), ("keyword", "positional")):
+            new = {"inside": 5.0, "below the lower limit": -3.0, "above the upper limit": 1e9, "on the lower limit": 1.0, "on the upper limit": 100.0}[where]
+            cls = type("E", (), {"_parameter_default_value": {"R": 10.0, "Y": 2.0}, "_parameter_default_lower_limit": {"R": 1.0, "Y": 0.0}, "_parameter_default_upper_limit": {"R": 100.0, "Y": 3.0},
+                                 "_parameter_default_fixed": {"R": False, "Y": True}, "_parameter_unit": {"R": "ohm", "Y": "S"}, "_valid_kwargs_keys": ["R", "Y"]})
+            before = {k: copy.deepcopy(v) for k, v in vars(cls).items() if k.startswith("_") and not k.startswith("__")}
+            ids = {k: id(getattr(cls, k)) for k in before}
+            if form == "keyword":
+                fn(cls, R=new)
+            else:
+                fn(cls, "R", new)
+            after = {k: getattr(cls, k) for k in before}
+            tag = f"[new value {where}, {form} form]"
+            sess.check("post", [], z3.BoolVal(after["_parameter_default_value"] == {"R": float(new), "Y": 2.0}), 0, label=f"the default value of the named parameter is the new value, the others are untouched{tag}")
+            sess.check("frame", [], z3.BoolVal(all(after[k] == before[k] for k in before if k != "_parameter_default_value") and all(id(after[k]) == ids[k] for k in before)), 0,
+                       label=f"default limits, fixed flags and all other class tables are unchanged{tag}")
+        cls = type("E", (), {"_parameter_default_value": {"R": 10.0}})
+        refused = False
+        try:
+            fn(cls, Q=1.0)
+        except KeyError:
+            refused = True
+        sess.check("post", [], z3.BoolVal(refused and cls._parameter_default_value == {"R": 10.0}), 0, label="an unknown key is refused (KeyError) and nothing is changed")
+    return ("circuit/base:Element.set_default_values", "circuit/base", "Element.set_default_values", run)
+
+
+def target_validate_impedances():
+    """registry._validate_impedances: the numeric impedance of a new element at its default values is compared with its symbolic
+    expression SEPARATELY for the real and for the imaginary parts (a comparison of the complex numbers is relative to the modulus
+    and would let an error in the small component through), at the same frequencies, and a mismatch in either refuses the element
+    (ValueError)."""
+    from pyvc import overload as O
+    from . import dataflow as DF
+    from .dataflow import T, opaque
+
+    def run(sess: Session):
+        n = 0
+
+        def once():
+            asked = []
+
+            def allclose(a, b, *r, **k):
+                v = DF.ORACLE.decide("allclose", f"allclose({DF.tv(a)}, {DF.tv(b)})")
+                asked.append((a, b, v))
+                return v
+            Zf, Zs = T.var("Z_func"), T.var("Z_sympy")
+
+            class El:
+                def to_sympy(self, substitute=False):
+                    return type("Expr", (), {"subs": lambda s, *a: 0})()
+
+                def get_impedances(self, f):
+                    return Zf
+            made = {"n": 0}
+
+            def array(x, dtype=None):
+                made["n"] += 1
+                return T.var("f") if made["n"] == 1 else Zs
+            ns = {"array": array, "allclose": allclose, "list": lambda x: [], "map": lambda f, x: [], "complex": complex, "Frequency": None, "ComplexImpedance": None}
+            O.load("circuit/registry", ["_validate_impedances"], ns)
+            err = None
+            try:
+                ns["_validate_impedances"](El)
+            except ValueError as ex:
+                err = ex
+            return asked, err, Zf, Zs
+        for log, (asked, err, Zf, Zs), facts in DF.explore(once):
+            n += 1
+            tag = "[" + ",".join("T" if v else "F" for _, v in log) + "]"
+            pairs = [(str(DF.tv(a)), str(DF.tv(b))) for a, b, _ in asked]
+            want_re, want_im = (str(DF.tv(Zf.real)), str(DF.tv(Zs.real))), (str(DF.tv(Zf.imag)), str(DF.tv(Zs.imag)))
+            if err is None:
+                sess.check("post", [], z3.BoolVal(want_re in pairs and want_im in pairs and all(v for _, _, v in asked)), 0, label=f"accepted only after the real parts AND the imaginary parts were each found close{tag}")
+            else:
+                sess.check("post", [], z3.BoolVal(any(not v for _, _, v in asked) and all(p_ in (want_re, want_im) for p_ in pairs)), 0, label=f"refused only because the real or the imaginary parts differ{tag}")
+        sess.check("cover", [], z3.BoolVal(n >= 3), 0, label=f"paths={n}")
+    return ("circuit/registry:_validate_impedances", "circuit/registry", "_validate_impedances", run)
+
+
+_targets_c15_with_get = targets
+
+
+def targets():      # noqa: F811
+    return _targets_c15_with_get() + [target_set_default_values(), target_validate_impedances()]
